@@ -94,9 +94,9 @@ type pki struct {
 	leafAsCA  *authority // CA:false leaf issued by trusted, (ab)used as an issuer
 	serverCA  *authority // issues the server certificate (clients trust it)
 
-	dir                            string
+	dir                             string
 	caFile, srvCertFile, srvKeyFile string
-	clientRoots                    *x509.CertPool
+	clientRoots                     *x509.CertPool
 }
 
 func newPKI(dir string, rng *mrand.Rand) (*pki, error) {
@@ -260,11 +260,11 @@ func (p *pki) mint(s certSpec) (*tls.Certificate, error) {
 	}
 	k := newKey()
 	tmpl := &x509.Certificate{
-		SerialNumber: nextSerial(),
-		Subject:      pkix.Name{CommonName: s.CN},
-		KeyUsage:     x509.KeyUsageDigitalSignature,
-		ExtKeyUsage:  []x509.ExtKeyUsage{x509.ExtKeyUsageClientAuth},
-		DNSNames:     s.DNS,
+		SerialNumber:   nextSerial(),
+		Subject:        pkix.Name{CommonName: s.CN},
+		KeyUsage:       x509.KeyUsageDigitalSignature,
+		ExtKeyUsage:    []x509.ExtKeyUsage{x509.ExtKeyUsageClientAuth},
+		DNSNames:       s.DNS,
 		EmailAddresses: s.Emails,
 	}
 	if s.OU != "" {
